@@ -99,7 +99,6 @@ def _replay(f: dict):
     text = f["input"]
     code = ("from ahbicht.expressions.condition_expression_parser import parse_condition_expression_to_tree as p\n"
             f"print(p({text!r}).pretty())  # expected (flattened): {f.get('expected')}\n")
-    again: List[dict] = []
     if f["clause"] == "respelling-invariance":
         (s1, a), (s2, b) = _parse_real(f["base"]), _parse_real(text)
         code = ("from ahbicht.expressions.condition_expression_parser import parse_condition_expression_to_tree as p\n"
